@@ -82,6 +82,6 @@ pub fn main(tier: &str, seed: u64, n_override: Option<u64>) {
         let tq2 = jac.torques(&iso);
         if (0..6).any(|i| (tq[i] - tq2[i]).abs() > 1e-9 * (1.0 + want.norm())) { fail("C15.torque_entry_points_disagree"); }
         println!("{}", Obj::new().s("prop", "C15").i("case", idx as i64).raw("robot", &r.json()).fs("q", &q).f("eps", eps).i("wrappers", ws.len() as i64)
-            .d("diff", diff).d("tol", tol).d("cond", cond).s("direct", &direct).s("class", &class).done());
+            .d("diff", diff).d("tol", tol).d("cond", cond).raw("jac", &if ws.is_empty() { format!("[{}]", (0..6).map(|a| fxs(&(0..6).map(|b| m[(a, b)]).collect::<Vec<f64>>())).collect::<Vec<_>>().join(",")) } else { "null".to_string() }).s("direct", &direct).s("class", &class).done());
     }
 }
